@@ -337,6 +337,25 @@ struct qsbr_state {
     return result;
   }
 
+  /// Make a new state word by decrementing the number of threads in the
+  /// previous epoch in \a word, leaving the thread count and the epoch as they
+  /// are.
+  [[nodiscard, gnu::const]] static constexpr type
+  dec_threads_in_previous_epoch(type word) noexcept {
+    assert_invariants(word);
+    UNODB_DETAIL_ASSERT(get_threads_in_previous_epoch(word) > 0);
+
+    const auto result = word - 1U;
+
+    assert_invariants(result);
+    UNODB_DETAIL_ASSERT(get_epoch(word) == get_epoch(result));
+    UNODB_DETAIL_ASSERT(get_thread_count(word) == get_thread_count(result));
+    UNODB_DETAIL_ASSERT(get_threads_in_previous_epoch(word) - 1 ==
+                        get_threads_in_previous_epoch(result));
+
+    return result;
+  }
+
   /// Increment the epoch and reset the threads in previous epoch count to the
   /// total thread count.
   [[nodiscard, gnu::const]] static constexpr type inc_epoch_reset_previous(
